@@ -108,6 +108,10 @@ pub enum Roots {
     /// window plus unrelated values
     WindowPlus,
     Raw(Vec<u8>),
+    /// near misses built from the message's own root at run time, none of which contains the root as an entry:
+    /// kind 0: the root's 32 bytes straddle two adjacent entries (first `at` bytes end one entry, the rest start the next);
+    /// kind 1: an entry equal to the root except for one bit of byte `at`; kind 2: the root's bytes in reverse order
+    Near { kind: u8, at: usize },
 }
 
 impl Roots {
@@ -119,10 +123,14 @@ impl Roots {
             Roots::Without => json!("without"),
             Roots::WindowPlus => json!("window_plus"),
             Roots::Raw(b) => json!({"raw": hex(b)}),
+            Roots::Near { kind, at } => json!({"near": *kind, "at": *at as u64}),
         }
     }
     pub fn from_json(v: &Value) -> Roots {
         if v.is_object() {
+            if let Some(k) = v["near"].as_u64() {
+                return Roots::Near { kind: k as u8, at: v["at"].as_u64().unwrap_or(1) as usize };
+            }
             return Roots::Raw(unhex(v["raw"].as_str().unwrap_or("")));
         }
         match v.as_str().unwrap_or("window") {
@@ -818,6 +826,39 @@ pub fn run_trace(trace: &Trace, ctx: &mut Ctx) -> RunOutcome {
                         v.push(other(5));
                         let ok = n.window.contains(&m.root);
                         (enc_roots(&v), ok)
+                    }
+                    Roots::Near { kind, at } => {
+                        let r = fr_to_le32(&m.root);
+                        let mut b = enc_roots(&[other(6)]);
+                        match kind {
+                            0 => {
+                                let s = (*at).clamp(1, 31);
+                                b.extend(std::iter::repeat(0x11u8).take(32 - s));
+                                b.extend_from_slice(&r[..s]);
+                                b.extend_from_slice(&r[s..]);
+                                b.extend(std::iter::repeat(0x22u8).take(s));
+                            }
+                            1 => {
+                                let mut e = r;
+                                e[*at % 32] ^= 1;
+                                b.extend_from_slice(&e);
+                            }
+                            _ => {
+                                let mut e = r;
+                                e.reverse();
+                                b.extend_from_slice(&e);
+                            }
+                        }
+                        b.extend(enc_roots(&[other(7)]));
+                        let mut ok = false;
+                        let mut k = 0;
+                        while k + 32 <= b.len() {
+                            if b[k..k + 32] == r {
+                                ok = true;
+                            }
+                            k += 32;
+                        }
+                        (b, ok)
                     }
                     Roots::Raw(b) => {
                         // well-formed membership cannot be asserted for raw bytes; decide by decoding
